@@ -111,3 +111,19 @@ Theorem C18_check_never_fails :
   Edits.pairwise_okb (Edits.sort_r (Edits.ranges c n)) = true.
 Proof. exact EditsProofs.check_never_fails. Qed.
 Print Assumptions C18_check_never_fails.
+
+(* ... and that premise follows from what the filter guarantees (C18_no_change_inside_removed_node read on the tree: no OTHER surviving change touches a
+   node in the subtree of a node that a surviving change removes): the surviving changes of a well-formed tree never produce overlapping ranges *)
+From V Require Proofs.EditsBridge.
+Theorem C18_filtered_never_overlap :
+  forall K : list EditsBridge.ech, NoDup (map EditsBridge.e_tag K) ->
+  forall root : Edits.node, NoDup (EditsBridge.ids root) -> EditsBridge.filtered root K ->
+  (forall sub : Edits.node, EditsBridge.Sub sub root -> Edits.touched (EditsBridge.cset_of K) (Edits.nid sub) (Edits.n_kids sub) = true -> (Edits.n_b sub <= Edits.n_ce sub)%nat) ->
+  Edits.wf root ->
+  Forall Edits.wfr (Edits.ranges (EditsBridge.cset_of K) root) /\ Edits.Disj (Edits.ranges (EditsBridge.cset_of K) root).
+Proof. exact EditsBridge.filtered_never_overlap. Qed.
+Theorem C18_filtered_example :
+  NoDup (map EditsBridge.e_tag EditsBridge.ex_K) /\ NoDup (EditsBridge.ids EditsBridge.ex_root) /\ EditsBridge.filtered EditsBridge.ex_root EditsBridge.ex_K /\ Edits.wf EditsBridge.ex_root.
+Proof. exact EditsBridge.filtered_example. Qed.
+Print Assumptions C18_filtered_never_overlap.
+Print Assumptions C18_filtered_example.
